@@ -1,6 +1,9 @@
 package ast
 
-import "fmt"
+import (
+	"fmt"
+	"reflect"
+)
 
 // Visitor Enter method is invoked for each node encountered by Walk.
 // If the result visitor w is not nil, Walk visits each of the children
@@ -17,6 +20,11 @@ type Visitor interface {
 // of v.Exit(node).
 func Walk(v Visitor, n Node) {
 	if n == nil {
+		return
+	}
+	// A nil pointer stored in a node field (for example the label of an
+	// unlabelled break) is an absent child, not a node to visit.
+	if value := reflect.ValueOf(n); value.Kind() == reflect.Ptr && value.IsNil() {
 		return
 	}
 	if v = v.Enter(n); v == nil {
